@@ -4,6 +4,7 @@
 From Coq Require Import ExtrOcamlBasic.
 From Coq Require Import ZArith NArith List Floats.SpecFloat.
 From RRSS Require Import Base.Outcome Base.Chars Base.F64 Base.F64Text Exec.Val Exec.ValErrorText.
+From RRSS Require Import Exec.Ops Front.Ast Front.Poetic Exec.Env Exec.Interp Exec.RtErrorText.
 Extraction Language OCaml.
 Extraction "model.ml"
   is_alphabetic is_numeric is_whitespace is_uppercase is_lowercase char_to_lowercase
@@ -12,4 +13,6 @@ Extraction "model.ml"
   v_index v_update_at v_push v_pop v_decay to_string_for_output is_truthy
   v_equals v_compare v_inc v_plus v_multiply v_subtract v_divide v_negate
   v_round_up v_round_down v_round_nearest v_split v_join v_cast v_display
-  val_error_display val_error_name.
+  val_error_display val_error_name
+  binop_apply unop_apply compute_value poetic_digits exec_program rt_error_display rt_error_name
+  range_concat range_new stmt_line block_line lower_name.
